@@ -434,7 +434,7 @@ def close_counts(ctx, only=None):
     only = predicate on the case name (C01 looks at the cases with deliveries only)."""
     rc, out, _ = common.sh([common.bin_path('p_closecount')], timeout=120)
     rows = [l.split() for l in out.split('\n') if len(l.split()) == 4]
-    ctx.correspondence('close-count probe ran (p_closecount)', rc == 0 and len(rows) >= 14, out[-400:] if rc else None)
+    ctx.correspondence('close-count probe ran (p_closecount)', rc == 0 and len(rows) >= 24, out[-400:] if rc else None)
     for name, got, want, shape in rows:
         if only is not None and not only(name):
             continue
